@@ -134,7 +134,13 @@ class Transaction:
         fmt = data_file.file_format
         fmt_name = fmt.value if isinstance(fmt, FileFormat) else str(fmt)
         if fmt_name.lower() != FileFormat.PARQUET.value:
-            return
+            # Every read path decodes data files as parquet. A file declared as
+            # avro/orc used to be queued unchecked and then made every scan fail
+            # (or, if it really was a divergent parquet file, bricked concat).
+            raise ValueError(
+                f"Data file '{data_file.file_path}' is declared as '{fmt_name}', but only "
+                f"parquet data files can be read back by scans; refusing to append it"
+            )
 
         import pyarrow.parquet as pq
 
